@@ -142,6 +142,11 @@ impl<'a> Lexer<'a> {
             _ => unreachable!(),
         };
 
+        // an identifier may start with digits: [0-9]*[a-zA-Z_][a-zA-Z_0-9]*
+        if base == 10 && c.is_ascii_digit() && self.s.at(is_identifier_start) {
+            return self.identifier(start);
+        }
+
         let number = self.s.get(start..self.s.cursor());
         if interpret_number(number).is_none() {
             match base {
